@@ -122,28 +122,37 @@ pub fn innermost_physis_frame_now() -> String {
     }
 }
 
+/// Message with every number (decimal or hex, with trailing alphanumerics) replaced by N,
+/// whitespace collapsed, cut at 56 characters: stable across inputs that reach the same site.
 pub fn normalise_message(m: &str) -> String {
     let mut out = String::new();
-    let mut in_digits = false;
-    for c in m.chars() {
+    let mut chars = m.chars().peekable();
+    let mut last_space = false;
+    while let Some(c) = chars.next() {
         if c.is_ascii_digit() {
-            if !in_digits {
-                out.push('N');
-                in_digits = true;
+            while let Some(n) = chars.peek() {
+                if n.is_ascii_alphanumeric() {
+                    chars.next();
+                } else {
+                    break;
+                }
             }
-        } else {
-            in_digits = false;
-            if c == '\n' {
+            out.push('N');
+            last_space = false;
+        } else if c.is_whitespace() {
+            if !last_space {
                 out.push(' ');
-            } else {
-                out.push(c);
             }
+            last_space = true;
+        } else {
+            out.push(c);
+            last_space = false;
         }
-        if out.len() >= 96 {
+        if out.len() >= 56 {
             break;
         }
     }
-    out
+    out.trim_end().to_string()
 }
 
 pub fn install_hook() {
@@ -226,11 +235,6 @@ pub fn guarded<R>(f: impl FnOnce() -> R) -> Result<R, Caught> {
 }
 
 pub fn panic_signature(prop: &str, entry: &str, rec: &PanicRec) -> String {
-    format!(
-        "{}|panic|{}|{}|{}",
-        prop,
-        entry,
-        rec.frame.sig(),
-        normalise_message(&rec.message)
-    )
+    let _ = entry;
+    format!("{}|panic|{}|{}", prop, rec.frame.sig(), normalise_message(&rec.message))
 }
